@@ -1,4 +1,79 @@
-/- Line protocol of C02: placeholder until the model of this property is built. -/
+import BertE.Model.FlowC02
+import BertE.Drv.C01
+/-
+Line protocol of C02: a whole history as for C01, the LAST item being run with a fault.
+  `C02 <fault>;init ...;<item>;...;<item>`
+  fault:  `crash <k>`            the job dies after k of its (git) operations
+          `reject <i> <ref>`     the server refuses <ref> in operation number i; the job stops there
+                                 (the real push raises after its retries), i.e. operations 0..i are attempted
+          `none`                 uninterrupted
+Answer: `ops=<n>:<kinds>;<observation before the last item>;<observation of the interrupted remote>` where kinds
+is the list of operation kinds of the plan (`push`, `pushall`, `delete`), observations as for C01.
+-/
 namespace BertE.Drv.C02
-def handle (_args : List String) : String := "bad-op"
+open BertE.Git BertE.Flow BertE.Drv.C01
+
+def parseRef (s : String) : Option Ref :=
+  match s.splitOn ":" with
+  | ["D", d] => (parseDest d).map Ref.dest
+  | "W" :: d :: rest => (parseDest d).map (fun d => Ref.w d (":".intercalate rest))
+  | ["Q", d] => (parseDest d).map Ref.q
+  | "QW" :: pr :: d :: rest => do
+    let p ← pr.toNat?
+    let d ← parseDest d
+    pure (Ref.qw p d (":".intercalate rest))
+  | "O" :: rest => some (Ref.other (":".intercalate rest))
+  | _ => none
+
+inductive Fault where
+  | none
+  | crash (k : Nat)
+  | reject (i : Nat) (r : Ref)
+
+def parseFault (ws : List String) : Option Fault :=
+  match ws with
+  | ["none"] => some .none
+  | ["crash", k] => k.toNat?.map Fault.crash
+  | ["reject", i, r] => do let i ← i.toNat?; let r ← parseRef r; pure (.reject i r)
+  | _ => none
+
+def opKind : Op → String
+  | .push _ => "push"
+  | .pushAll _ _ => "pushall"
+  | .delete _ => "delete"
+
+/-- the interrupted remote of the last event -/
+def faulted (s : Sys) (ev : Event) (f : Fault) : String × Sys :=
+  let p := plan s ev
+  let head := s!"ops={p.ops.length}:" ++ ",".intercalate (p.ops.map opKind)
+  match f with
+  | .none => (head, { s with g := p.g, remote := observableAt s p (fun _ _ => false) p.ops.length })
+  | .crash k => (head, { s with g := p.g, remote := observableAt s p (fun _ _ => false) k })
+  | .reject i r => (head, { s with g := p.g, remote := observableAt s p (fun j x => j == i && x == r) (i + 1) })
+
+def runAll (s : Sys) : List String → Option Sys
+  | [] => some s
+  | it :: rest =>
+    match parseEvent ((it.splitOn " ").filter (· ≠ "")) with
+    | none => none
+    | some ev => runAll (step s ev).1 rest
+
+def handle (args : List String) : String :=
+  let line := " ".intercalate args
+  match line.splitOn ";" with
+  | fault :: first :: items =>
+    match parseFault ((fault.splitOn " ").filter (· ≠ "")), (first.splitOn " ").filter (· ≠ "") with
+    | some f, "init" :: uq :: sq :: dests =>
+      match dests.mapM parseDest, items.getLast? with
+      | some ds, some last =>
+        match runAll (initSys (uq == "1") (sq == "1") ds) items.dropLast,
+              parseEvent ((last.splitOn " ").filter (· ≠ "")) with
+        | some s, some ev =>
+          let (head, s') := faulted s ev f
+          head ++ ";" ++ observe s "before" ++ ";" ++ observe s' "after"
+        | _, _ => "bad-op item"
+      | _, _ => "bad-op dests"
+    | _, _ => "bad-op fault"
+  | _ => "bad-op"
+
 end BertE.Drv.C02
